@@ -2,6 +2,7 @@
 # usage: tools/sweep.sh <tier> <seed> [<seed>...]   runs every check once per seed, prints one summary line each
 cd "$(dirname "$0")/.."
 tier=$1; shift
+mkdir -p .work
 for seed in "$@"; do
   for p in C01 C02 C03 C04 C05 C06 C07 C08 C09 C10 C11 C12 C13 C14 C15 C16 C17 C18 C19 C20; do
     start=$(date +%s)
